@@ -1,6 +1,6 @@
 (* C12 -- The region index exactly summarises the stored variants. *)
 From Coq Require Import ZArith Arith List Bool.
-From B2Z Require Import Model.RegionIndex Proofs.RegionIndexProofs.
+From B2Z Require Import Base.Prims Base.NpPrims Model.RegionIndex Proofs.RegionIndexProofs Gen.GenRegionIndex Bridge.BridgeRegionIndex.
 Import ListNotations.
 Open Scope Z_scope.
 
@@ -40,6 +40,45 @@ Theorem chunk_sizes : forall cs recs, (1 <= cs)%nat ->
   Forall (fun c => (1 <= length c <= cs)%nat) (chunks_of (length recs) cs recs).
 Proof. intros cs recs H. apply chunks_sizes; [exact H|apply le_n]. Qed.
 Print Assumptions chunk_sizes.
+
+(* ---- TRANSLATOR TIE: VcfZarrWriter.create_index as regenerated from the source on this run
+   (translator/ridx2coq.py -> Gen/GenRegionIndex.v): the chunk loop, the int32 end positions, the run
+   loop over np.nonzero(np.diff(c, append=-1)) with absolute indexes, the six row fields ---------- *)
+
+(* on the blocks zarr delivers (rows [k*cs, (k+1)*cs) of variant_contig / variant_position /
+   variant_length), for EVERY record list whose contig ids are not the sentinel -1 (np.diff's appended
+   value) and every chunk size, the translated function never trips its assertion and returns exactly the
+   model's index *)
+Theorem translated_create_index_is_the_model : forall cs recs, no_sentinel_contig recs ->
+  gen_create_index (blocks_of (chunks_of (length recs) cs recs)) = Ok (create_index cs recs).
+Proof. exact translated_create_index_is_the_model_lemma. Qed.
+Print Assumptions translated_create_index_is_the_model.
+
+(* hence the property for the translated source: with end positions inside int32 it returns the
+   specification index computed in Z *)
+Theorem translated_region_index_spec : forall cs recs, Forall in_range recs -> no_sentinel_contig recs ->
+  gen_create_index (blocks_of (chunks_of (length recs) cs recs)) = Ok (spec_index cs recs).
+Proof.
+  intros cs recs Hr Hs. rewrite translated_create_index_is_the_model_lemma by exact Hs.
+  rewrite region_index_spec_lemma by exact Hr. reflexivity.
+Qed.
+Print Assumptions translated_region_index_spec.
+
+(* the end-position expression of the source, evaluated in numpy's int32 arithmetic, is the model's *)
+Theorem translated_end_position : forall r, gen_end (ctg r) (pos r) (len r) = end_impl r.
+Proof. exact gen_end_is_end_impl. Qed.
+Print Assumptions translated_end_position.
+
+(* the premise no_sentinel_contig is forced by the source (np.diff(c, append=-1) sees no boundary after
+   a trailing record of contig -1): recorded, not hidden.  Stored contig ids are header indexes >= 0. *)
+Example sentinel_contig_hypothesis_needed :
+  gen_create_index (blocks_of [[(-1, 5, 1)]]) = Ok [] /\ create_index 1 [(-1, 5, 1)] = [[0; -1; 5; 5; 5; 1]].
+Proof. vm_compute. split; reflexivity. Qed.
+
+Example translated_index_instance :
+  gen_create_index (blocks_of (chunks_of 5 3 [(0, 10, 1); (0, 20, 5); (1, 5, 1); (1, 7, 100); (1, 8, 1)]))
+  = Ok [[0; 0; 10; 20; 24; 2]; [0; 1; 5; 5; 5; 1]; [1; 1; 7; 8; 106; 2]].
+Proof. vm_compute. reflexivity. Qed.
 
 (* regression witness for the pre-fix code (F2): computing the end in the arrays' own int8 *)
 Definition wrap8 (x : Z) : Z := (x + 128) mod 256 - 128.
